@@ -161,4 +161,27 @@ example (a : Asg) (ha : Bounded (fun _ => 2) a) :
 
 example : BNState.init.Inv := ⟨fun e he => (by cases he), acyclic_nil⟩
 
+
+/-- **interventions compose on the graph**: `do(vs)` followed by `do(ws)` leaves the nodes and removes exactly the edges into
+    `vs ++ ws` - the same graph as the single intervention on both sets, in either order; in particular `do` is idempotent on the graph -/
+theorem C13_do_compose_graph (s : BNState) (vs ws : List Var)
+    (hv : vs.all s.nodes.contains = true) (hw : ws.all s.nodes.contains = true) :
+    ((s.step (.doOp vs)).1.step (.doOp ws)).1.nodes = s.nodes ∧
+    (∀ e, e ∈ ((s.step (.doOp vs)).1.step (.doOp ws)).1.edges ↔ e ∈ (s.step (.doOp (vs ++ ws))).1.edges) ∧
+    (∀ e, e ∈ ((s.step (.doOp vs)).1.step (.doOp ws)).1.edges ↔ e ∈ ((s.step (.doOp ws)).1.step (.doOp vs)).1.edges) := by
+  have h1 := C13_do_surgery s vs hv
+  have h1' := C13_do_surgery s ws hw
+  have hw' : ws.all (s.step (.doOp vs)).1.nodes.contains = true := by rw [h1.2.1]; exact hw
+  have hv' : vs.all (s.step (.doOp ws)).1.nodes.contains = true := by rw [h1'.2.1]; exact hv
+  have h2 := C13_do_surgery _ ws hw'
+  have h2' := C13_do_surgery _ vs hv'
+  have hvw : (vs ++ ws).all s.nodes.contains = true := by
+    rw [List.all_append, hv, hw]; rfl
+  have h3 := C13_do_surgery s (vs ++ ws) hvw
+  refine ⟨by rw [h2.2.1, h1.2.1], fun e => ?_, fun e => ?_⟩
+  · rw [h2.2.2.1 e, h1.2.2.1 e, h3.2.2.1 e, List.mem_append]
+    tauto
+  · rw [h2.2.2.1 e, h1.2.2.1 e, h2'.2.2.1 e, h1'.2.2.1 e]
+    tauto
+
 end PgmVerif
